@@ -461,5 +461,5 @@ def _regress(tier):
 def checks(tier):
     return [
         Check("zero-delay", _run, cases=_regress, shards={"quick": 1, "thorough": 1}, exhaustive=True),
-        Check("factories", _run, strategy=_case(), examples={"quick": 3000, "thorough": 16 * 30000}, shards={"quick": 4, "thorough": 16}),
+        Check("factories", _run, strategy=_case(), examples={"quick": 6000, "thorough": 16 * 30000}, shards={"quick": 4, "thorough": 16}),
     ]
